@@ -24,10 +24,28 @@ CORE = dict(
 
 
 def core_check(prop, tier, seed, replay):
+    """Core properties are evaluated on the traces of the core family and of the application family (its packets
+    go through the same packet layer; C02 / C09 / C19 also have token-level formulas there); C19 on every family."""
     if replay:
-        return T.replay(prop, CORE, replay)
-    r = T.run_family(CORE, tier, seed)
-    return T.verdict(prop, CORE, tier, seed, r)
+        import json as _json
+        fam = _json.load(open(replay)).get("family", "core")
+        return T.replay(prop, _family_by_name(fam), replay)
+    from . import fam_apps as A
+    pairs = [(CORE, T.run_family(CORE, tier, seed)), (A.FAM, T.run_family(A.FAM, tier, seed))]
+    if prop == "C19":
+        from . import fam_more as M
+        pairs += [(A.FAM_BIG, T.run_family(A.FAM_BIG, tier, seed)), (M.GENESIS, T.run_family(M.GENESIS, tier, seed)),
+                  (M.EXPIRY, T.run_family(M.EXPIRY, tier, seed))]
+    return T.verdict(prop, CORE, tier, seed, T.merge_runs(pairs))
+
+
+def _family_by_name(name):
+    from . import fam_apps as A
+    from . import fam_more as M
+    for f in (CORE, A.FAM, A.FAM_BIG, M.GENESIS, M.GENESIS_APPS, M.EXPIRY):
+        if f["name"] == name:
+            return f
+    return CORE
 
 
 CHECKS = {}
